@@ -201,7 +201,7 @@ def damage_parity_block(arr, level, pos, rng, shape):
     open(f, 'wb').write(data[:pos * bs] + nb + data[(pos + 1) * bs:])
 
 
-DATA_KINDS = ['wipe', 'rmfiles', 'truncate', 'flip', 'mixed', 'rmlinks']
+DATA_KINDS = ['wipe', 'rmfiles', 'truncate', 'flip', 'mixed', 'rmlinks', 'grow']
 PAR_KINDS = ['delete', 'garbage', 'truncate', 'flipblocks', 'zero']
 
 
@@ -234,7 +234,7 @@ def damage_data_disk(arr, d, kind, rng):
         if not os.path.exists(p):
             continue
         st = os.stat(p)
-        k = kind if kind != 'mixed' else rng.choice(['rmfiles', 'truncate', 'flip', 'keep'])
+        k = kind if kind != 'mixed' else rng.choice(['rmfiles', 'truncate', 'flip', 'keep', 'grow'])
         if kind == 'rmlinks':
             if st.st_nlink > 1 and rng.random() < 0.7:
                 os.unlink(p); done.append('rm-one-hardlink-name ' + rel)
@@ -250,6 +250,16 @@ def damage_data_disk(arr, d, kind, rng):
             else:
                 open(p, 'wb').write(data)
             done.append('truncate %s to %d' % (rel, n))
+        elif k == 'grow' and rng.random() < 0.7 and st.st_size > 0 and st.st_nlink == 1:
+            # the file grew behind the tool's back, by a few bytes or by whole blocks, time-stamp kept or not (fix cuts it back,
+            # reports it recovered and restores the time-stamp since 993feac)
+            n = rng.choice([1, 4, arr.bs - 1, arr.bs, 2 * arr.bs + 3])
+            data = open(p, 'rb').read() + rng.randbytes(n)
+            if rng.random() < 0.5:
+                rewrite_keep_stamp(p, data)
+            else:
+                open(p, 'wb').write(data)
+            done.append('grow %s by %d' % (rel, n))
         elif k == 'flip' and rng.random() < 0.7 and st.st_size > 0 and st.st_ino not in seen_ino:
             nblk = (st.st_size + arr.bs - 1) // arr.bs
             for idx in range(nblk):
